@@ -321,6 +321,10 @@ class NumpyModel:
         if name == "squeeze":
             return a.squeeze()
         if name == "astype":
+            tgt = args[0] if args else kwargs.get("dtype")
+            tname = getattr(tgt, "path", None) or (tgt if isinstance(tgt, str) else getattr(tgt, "__name__", ""))
+            if str(tname).split(".")[-1] in ("float32", "float16", "half", "single", "f4", "f2"):
+                return self.np_float32(a.copy())
             return a.copy()
         if name == "clip":
             return self.np_clip(a, *args, **kwargs)
@@ -351,6 +355,13 @@ class NumpyModel:
         if name == "sort":
             I.emit("inplace", ("sort", id(a)), node)
             return I.opaque("ndarray.sort on symbolic data", node)
+        if name == "setflags":
+            return None          # write protection: no effect on values
+        if name == "astype" and False:
+            pass
+        f = getattr(self, "np_" + name, None)
+        if f is not None and name not in ("where", "array", "asarray"):
+            return f(a, *args, **kwargs)      # ndarray.method(...) == numpy.method(array, ...)
         raise Unsupported(f"ndarray method {name}", node)
 
     # ------------------------------------------------------------------ external calls
@@ -647,6 +658,11 @@ class NumpyModel:
     def b_hash(self, node, x):
         return 0
 
+    def b_id(self, node, x):
+        # identity of the abstract object stands for the identity of the concrete one: the interpreter creates a new abstract object
+        # exactly where the program creates a new concrete one, and in-place mutation keeps both
+        return id(x)
+
     def b_print(self, node, *a, **k):
         return None
 
@@ -884,6 +900,49 @@ class NumpyModel:
 
     def np_sign(self, x):
         return vec(_sign1, x)
+
+    def _round_fn(self, name, x):
+        import math as _m
+
+        def one(u):
+            u = cell(u)
+            if isinstance(u, E) and u.is_const():
+                return lift({"floor": _m.floor, "ceil": _m.ceil, "trunc": _m.trunc}[name](u.cval()))
+            return alg.Fn(name, u)
+        return vec(one, x)
+
+    def _np_int(self, x=0):
+        if isinstance(x, EnumMember):
+            x = x.value
+        if isinstance(x, (bool, np.bool_)):
+            return int(x)
+        if isinstance(x, (int, IntSym)):
+            return x
+        return self.b_int(None, x)
+
+    np_int64 = np_int32 = np_int16 = np_int8 = np_intp = np_uint8 = np_uint64 = np_int_ = _np_int
+
+    def _np_float(self, x=0):
+        if isinstance(x, EnumMember):
+            x = x.value
+        return vec(lambda u: cell(u), x) if isinstance(x, np.ndarray) else cell(x)
+
+    np_float64 = np_double = np_float_ = _np_float
+
+    def np_float32(self, x=0):
+        # a narrowing conversion is not the identity: kept as an uninterpreted rounding
+        return vec(lambda u: alg.Fn("float32", cell(u)), x) if isinstance(x, np.ndarray) else alg.Fn("float32", cell(x))
+
+    np_float16 = np_float32
+
+    def np_floor(self, x):
+        return self._round_fn("floor", x)
+
+    def np_ceil(self, x):
+        return self._round_fn("ceil", x)
+
+    def np_trunc(self, x):
+        return self._round_fn("trunc", x)
 
     def np_square(self, x):
         return vec(lambda u: u * u, x)
@@ -1215,6 +1274,18 @@ class NumpyModel:
             ts = list(r.flat)
         else:
             ts = [r]
+        if all(isinstance(t, (bool, np.bool_)) for t in ts):
+            return all(bool(t) for t in ts)
+        if any(t is False for t in ts):
+            return False
+        gs = [t for t in ts if isinstance(t, Guard)]
+        return Guard("and", *gs) if len(gs) > 1 else gs[0]
+
+    def np_array_equal(self, a, b, equal_nan=False):
+        a_, b_ = (np.asarray(a, dtype=object) if not isinstance(a, np.ndarray) else a), (np.asarray(b, dtype=object) if not isinstance(b, np.ndarray) else b)
+        if a_.shape != b_.shape:
+            return False
+        ts = [self.I.compare1(_OPS["Eq"], cell(x), cell(y)) for x, y in zip(a_.flat, b_.flat)]
         if all(isinstance(t, (bool, np.bool_)) for t in ts):
             return all(bool(t) for t in ts)
         if any(t is False for t in ts):
